@@ -136,9 +136,26 @@ func fieldValue(ver int, name string, idx int) (int64, bool) {
 	return constOf(ver, name, idx), true
 }
 
+// reportDefault builds the report without any option (the library's default language).
+func (s subject) reportDefault() any {
+	if s.ver != 3 {
+		return nil
+	}
+	switch s.o3.level {
+	case spec.Base:
+		return report.NewBase(s.o3.B)
+	case spec.Temporal:
+		return report.NewTemporal(s.o3.T)
+	}
+	return report.NewEnvironmental(s.o3.E)
+}
+
 func (s subject) reportOf(lang string) any {
 	if s.ver != 3 {
 		return nil
+	}
+	if lang == "" {
+		return s.reportDefault()
 	}
 	tag := language.Make(lang)
 	switch s.o3.level {
@@ -189,6 +206,7 @@ var checkC15 = register("C15/ops", func(c opsCase) string {
 	reference := twin().snap() // the object as a process without history sees it
 	pr0, _ := makeSubject(recipe)
 	pristine0 := pr0.snap() // a plain decode of the input before any history
+	defaultReport0 := pr0.reportDefault() // the option-less report before any history
 	check := func(step int, o op) string {
 		tw := twin()
 		sa, st := a.snap(), tw.snap()
@@ -201,6 +219,11 @@ var checkC15 = register("C15/ops", func(c opsCase) string {
 		if pr, ok := makeSubject(recipe); ok {
 			if d := pr.snap().diff(pristine0); d != "" {
 				return fmt.Sprintf("after step %d (%+v) decoding the same input again gives a different object than before the history: %s", step, o, d)
+			}
+			if c.Ver == 3 {
+				if rd := pr.reportDefault(); !reflect.DeepEqual(rd, defaultReport0) {
+					return fmt.Sprintf("after step %d (%+v) the option-less report of a fresh decode differs from the one built before the history: %+v vs %+v", step, o, rd, defaultReport0)
+				}
 			}
 		}
 		if c.Ver == 3 {
@@ -313,7 +336,7 @@ func drawOps(rt *rapid.T, ver int, level spec.Level) []op {
 		case k < 11:
 			ops = append(ops, op{Kind: "snapshot"})
 		case k < 13:
-			ops = append(ops, op{Kind: "report", Lang: rapid.SampledFrom([]string{"en", "ja", "fr"}).Draw(rt, "lang")})
+			ops = append(ops, op{Kind: "report", Lang: rapid.SampledFrom([]string{"en", "ja", "ja", "fr", ""}).Draw(rt, "lang")})
 		case k < 17:
 			ops = append(ops, op{Kind: "set", Field: rapid.SampledFrom(fields).Draw(rt, "field"), Index: rapid.IntRange(-1, 4).Draw(rt, "index")})
 		default:
